@@ -153,3 +153,92 @@ def frac_scripted(script):
     finally:
         for n in names:
             setattr(_random, n, saved[n])
+
+
+class LenientScript(Script):
+    """Primitive-agnostic, never-dying oracle.  Scripted answers are consumed, in order, by calls of the kind they were
+    written for.  A call the script does NOT expect (other primitive, script exhausted, wrong number of answers) is not an
+    error: it is answered from a private seeded generator and recorded in `.unexpected` as (kind, summary of the arguments),
+    so that the run goes on and the FINAL observable can be judged by the verified checker (the unexpected calls themselves
+    are a correspondence matter).  `limit` bounds the number of unexpected calls (a runaway loop still ends)."""
+
+    def __init__(self, answers=None, seed=0, limit=5000):
+        super().__init__(answers)
+        self.unexpected = []
+        self.fallback = _random.Random(seed)
+        self.limit = limit
+
+    def _expected(self, kind):
+        return self.pos < len(self.answers) and self.answers[self.pos][0] == kind
+
+    def _note(self, kind, info):
+        if len(self.unexpected) >= self.limit:
+            raise OracleProtocol(f"more than {self.limit} unexpected random calls")
+        self.unexpected.append([kind, info])
+
+    def shuffle(self, x):
+        if self._expected("shuffle"):
+            return super().shuffle(x)
+        self._note("shuffle", len(x))
+        perm = list(range(len(x)))
+        self.fallback.shuffle(perm)
+        old = list(x)
+        for i, p in enumerate(perm):
+            x[i] = old[p]
+        self.log.append(("shuffle", old, perm))
+
+    def choice(self, seq):
+        if self._expected("choice"):
+            return super().choice(seq)
+        if len(seq) == 0:
+            raise IndexError("Cannot choose from an empty sequence")
+        self._note("choice", len(seq))
+        i = self.fallback.randrange(len(seq))
+        self.log.append(("choice", len(seq), i))
+        return seq[i]
+
+    def randrange(self, a, b=None, step=1):
+        if b is None:
+            a, b = 0, a
+        if self._expected("randrange"):
+            return super().randrange(a, b)
+        if b <= a:
+            raise ValueError("empty range for randrange()")
+        self._note("randrange", [int(a), int(b)])
+        i = self.fallback.randrange(b - a)
+        self.log.append(("randrange", a, b, i))
+        return a + i
+
+    def randint(self, a, b):
+        return self.randrange(a, b + 1)
+
+    def random(self):
+        if self._expected("random"):
+            return super().random()
+        self._note("random", 0)
+        r = self.fallback.random()
+        self.log.append(("random", r))
+        return r
+
+    def choices(self, population, weights=None, *, cum_weights=None, k=1):
+        population = list(population)
+        if self._expected("choices") and len(self.answers[self.pos][1]) == k:
+            return super().choices(population, weights, k=k)
+        if len(population) == 0:
+            raise IndexError("list index out of range")
+        self._note("choices", [len(population), int(k)])
+        idxs = [self.fallback.randrange(len(population)) for _ in range(k)]
+        self.log.append(("choices", population, None if weights is None else list(weights), k, idxs))
+        return [population[i] for i in idxs]
+
+
+@contextlib.contextmanager
+def lenient_scripted(script, extra_modules=()):
+    """as `scripted`, additionally patching random.randint; `script` is a LenientScript"""
+    saved_randint = _random.randint
+    _random.randint = script.randint
+    try:
+        with scripted(script, extra_modules) as s:
+            yield s
+    finally:
+        _random.randint = saved_randint
